@@ -213,9 +213,20 @@ structure Bind where
   calculate : Option Str
 deriving Repr, DecidableEq, Inhabited
 
+/-- `xml_bindings` (survey_element.py 565-571): a `calculate` whose text is a key of `aliases.BINDING_CONVERSIONS`
+    (the yes / no / true / false spellings) is written as `true()` / `false()` — `calculate` being one of
+    `constants.CONVERTIBLE_BIND_ATTRIBUTES` -/
+def bindConv (v : Str) : Str :=
+  if Pyxv.Gen.convertibleBindAttributes.contains "calculate" then
+    match Pyxv.Gen.bindingConversions.find? (fun p => p.1.toList == v) with
+    | some p => p.2.toList
+    | none => v
+  else v
+
 def qBind (pre : Path) (d : Q) : Bind :=
   { path := pre ++ [d.name],
-    calculate := if !d.trigger.isEmpty || d.calcu.isEmpty then none else some (sub (pre ++ [d.name]) d.calcu) }
+    calculate := if !d.trigger.isEmpty || d.calcu.isEmpty then none
+                 else some (sub (pre ++ [d.name]) (bindConv d.calcu)) }
 
 def binds (pre : Path) : List El → List Bind
   | [] => []
